@@ -168,10 +168,10 @@ let run_history (hline : string) (ops : string list) =
   pr "%s\n" hline;
   let (s0, o0) =
     if legacy then
-      (match tree_init_legacy (nat_of_int cap) with
+      (match tree_init_legacy (z_of_int cap) with
        | Some t -> ({ st_tree = Some t; st_copy = None; st_iters = []; st_rc = []; st_held = [] }, UNone)
-       | None -> st_init (nat_of_int cap))
-    else st_init (nat_of_int cap) in
+       | None -> st_init (z_of_int cap))
+    else st_init (z_of_int cap) in
   pr "O %s 0 %s\n" hid (s_out o0);
   dump_state hid 0 s0;
   let n = List.length ops in
